@@ -14,6 +14,8 @@
                                    out, root_canon false (1 empty text; 3 CDATA in binary; 4 embedded document in CDATA;
                                    6 embedded name; 9 binary Data).  2, 8, 10, 12 are about lists Expat does not deliver;
                                    11 is the parameter emb.
+   C02f_shape_clauses_silent       full: on a list of the shape Expat delivers the clauses 2, 8, 10, 12 never fire
+   C02f_clauses_that_matter        full: project's tables + Expat shape + octet attribute names: only 1, 3, 4, 6, 9, 11 can fire
    C02f_added_cdata_is_canonical   a vCard in <Data> delivered in three pieces, one of them a lone LF: canonical, idempotent
    C02f_text_split_invariant       full: a text delivered in any number of non-empty pieces anywhere in the list gives the
                                    same result as in one piece, outside the lone-LF case (stated: no_lone_lf), which is a
@@ -21,7 +23,7 @@
    C02f_text_split_step, _run      the two-piece step and the n-piece run forms *)
 From Coq Require Import List NArith String.
 From Wbxml Require Import Model.TablesDefs Model.Tables Model.LangSelect Model.EncWbxml Model.XmlFront Model.XmlFrontEvents Model.XmlFrontCanonEvents.
-From Wbxml Require Import Proofs.XmlFrontProofs Proofs.XmlFrontBalance Proofs.XmlFrontDataType Proofs.XmlFrontSplit Proofs.XmlFrontInverse Proofs.XmlFrontImage Gen.TablesData.
+From Wbxml Require Import Proofs.XmlFrontProofs Proofs.XmlFrontBalance Proofs.XmlFrontDataType Proofs.XmlFrontSplit Proofs.XmlFrontInverse Proofs.XmlFrontImage Proofs.XmlFrontShape Gen.TablesData.
 Import ListNotations.
 Local Open Scope N_scope.
 
@@ -108,6 +110,25 @@ Theorem C02f_attr_clause_silent :
   forall l raw, Forall (fun nv => Forall (fun c => c < 256) (fst nv)) raw -> attrs_canon l (map (resolve_attr l) raw) = true.
 Proof. exact attrs_canon_octets. Qed.
 Print Assumptions C02f_attr_clause_silent.
+
+Theorem C02f_shape_clauses_silent :
+  forall main sub input emb, (forall d, sub d <> inr WBXML_OK) ->
+  forall prolog root attrs i i' body epilog,
+  Forall prolog_any prolog -> balanced body -> Forall is_pi epilog -> N.of_nat (List.length body) + 1 < LIM ->
+  let k := evs_clause main sub input emb (prolog ++ EvStartElement root attrs i :: body ++ EvEndElement root i' :: epilog) in
+  k <> 2 /\ k <> 8 /\ k <> 10 /\ k <> 12.
+Proof. exact shape_clauses_silent. Qed.
+Print Assumptions C02f_shape_clauses_silent.
+
+Theorem C02f_clauses_that_matter :
+  forall sub input emb prolog root attrs i i' body epilog,
+  (forall d, sub d <> inr WBXML_OK) ->
+  Forall prolog_any prolog -> balanced body -> Forall is_pi epilog -> N.of_nat (List.length body) + 1 < LIM ->
+  let evs := prolog ++ EvStartElement root attrs i :: body ++ EvEndElement root i' :: epilog in
+  Forall ev_octets evs ->
+  In (evs_clause main_table sub input emb evs) [0; 1; 3; 4; 6; 9; 11].
+Proof. exact clauses_that_matter. Qed.
+Print Assumptions C02f_clauses_that_matter.
 
 (* ---------------------------------------------------------------- necessity *)
 
